@@ -11,7 +11,7 @@ PROP = ['C04_RateStep', 'C04_RateMonotone']
 def mc(run, name, algs, cset, starts, lims, workers, timeout):
     consts = dict(ctlfam.BUGS)
     consts['Algs <- ' + algs] = None
-    body = vlib.cfg(constants=dict(ctlfam.BUGS), invariants=INV + ['C04_SteadyEnds'], properties=PROP)
+    body = vlib.cfg(constants=dict(ctlfam.BUGS, ProbeX="100000"), invariants=INV + ['C04_SteadyEnds'], properties=PROP)
     body = body.replace('CONSTANTS\n', 'CONSTANTS\n  Algs <- %s\n  CSet %s\n  StartSet %s\n  Lims <- %s\n' % (algs, cset, starts, lims))
     return run.model_check('MC_C04', body, name, workers=workers, timeout=timeout, heap='12g')
 
@@ -32,7 +32,7 @@ def check(run):
         for f in futs:
             f.result()
     # non-vacuity: constant stretches longer than K are part of the explored graph
-    body = vlib.cfg(constants=dict(ctlfam.BUGS), invariants=['NV_NeverLong'])
+    body = vlib.cfg(constants=dict(ctlfam.BUGS, ProbeX="100000"), invariants=["NV_NeverLong"])
     body = body.replace('CONSTANTS\n', 'CONSTANTS\n  Algs <- AlgsStatelessQuick\n  CSet = {77}\n  StartSet = {0}\n  Lims <- LimsOne\n')
     r2, _ = run.model_check('MC_C04', body, 'nv_long', expect_violation=['NV_NeverLong'], timeout=600)
     if r2['violation'] != 'NV_NeverLong':
